@@ -1,4 +1,5 @@
 import SgModel.Lemmas.RespFeed
+import SgModel.Lemmas.RespLocal
 /-!
 # C20 — RESP framing survives any TCP chunking and pipelining
 
@@ -33,6 +34,15 @@ theorem C20_inline_frame (l : Bytes) (h : (Frame.inline l).wf = true) :
     ∧ (∀ p t, t ≠ [] → p ++ t = l ++ [CR, LF] →
         (decode p).out = .more ∧ (decode p).rest = p) :=
   (framed_inline l h).2
+
+/-- The decoder keeps no state and looks at no byte beyond the frame: for **any** bytes (not
+only well-formed frames, also inline lines and whatever else decodes), a decoded value depends
+only on the bytes consumed — the same bytes followed by anything else decode to the same value
+and leave exactly what followed. -/
+theorem C20_value_depends_only_on_consumed_bytes (b : Bytes) (v : RV) (hv : (decode b).out = .val v) :
+    ∃ used, b = used ++ (decode b).rest
+      ∧ ∀ rest', (decode (used ++ rest')).out = .val v ∧ (decode (used ++ rest')).rest = rest' :=
+  decode_local b v hv
 
 /-- **Any chunking, any pipelining depth.**  For every list of well-formed frames (RESP
 values and inline command lines) and every way `cs` of cutting their concatenated bytes into
